@@ -1028,6 +1028,11 @@ def check(program, rep):
     rep.guard("C11-R4", r4_stateless, program, rep)
     rep.guard("C11-R5", r5_callers, program, rep)
     rep.guard("C11-R5", r5_walk_vector, program, rep)
+    # the slips that are visible wherever they occur (NAMELINK, FALSY, STALE,
+    # NOEFFECT, SLIPS - DESIGN.md 9.13-9.15), over the property's modules
+    from .. import namelink as _nl
+    rep.guard("C11-R6", _nl.rule, program, rep, "C11-R6",
+              ['rig.geometry', 'rig.links', 'rig.place_and_route.route.utils'], floor=0)
     return finish(rep, program, EXPLANATION, NOT_DECIDED,
                   trusted=["link vector table VEC in rules/C11.py",
                            "ORDTYPE evaluator"], exhaustive=True)
